@@ -1,12 +1,40 @@
+pub mod c01;
+pub mod c02;
+pub mod c03;
+pub mod c10;
 pub mod gdscommon;
 pub mod iocfg;
-pub mod c01;
 
-use crate::engine::Check;
+use crate::engine::{Check, RunOut};
+use crate::rng::{Digest, Tape};
+use crate::simio::Io;
 
 pub fn all() -> Vec<Box<dyn Check>> {
-    vec![Box::new(c01::C01)]
+    vec![Box::new(c01::C01), Box::new(c02::C02), Box::new(c03::C03), Box::new(c10::C10)]
 }
 pub fn by_id(id: &str) -> Option<Box<dyn Check>> {
     all().into_iter().find(|c| c.id() == id)
+}
+
+/// Fill the bookkeeping fields of a run result from the run's I/O context
+pub fn finish(mut out: RunOut, io: &Io, wt: &Tape, struct_digest: u64, cfg: iocfg::Cfg, extra: u64, nonempty: bool) -> RunOut {
+    let r = io.borrow();
+    out.digest = r.log.finish();
+    out.stats = r.stats.clone();
+    out.steps = r.steps;
+    out.sim_ns = r.sim_ns;
+    out.wtape = wt.used();
+    out.ftape = r.ftape.used();
+    let mut d = Digest::new();
+    d.u64(struct_digest);
+    let mut f = Digest::new();
+    f.u64(cfg as u64);
+    f.u64(extra);
+    for c in r.stats.c.iter().skip(7) {
+        f.u64(*c);
+    }
+    d.u64(f.finish());
+    out.key = d.finish();
+    out.nontrivial = nonempty && (cfg == iocfg::Cfg::FaultFree || r.stats.faults_fired() > 0);
+    out
 }
